@@ -125,9 +125,14 @@ fn body1(c: &Case1, lx: &mut Local) {
                         }
                         _ => unreachable!(),
                     }
+                    // what the caller's own handle looks like after the call
+                    (v.len(), v.to_vec())
                 });
-                if let Err(m) = r {
-                    lx.fail("C03/panic", || format!("{:?} on {:?} step {} panicked: {}", c.r, vals, c.step, m));
+                match &r {
+                    Err(m) => lx.fail("C03/panic", || format!("{:?} on {:?} step {} panicked: {}", c.r, vals, c.step, m)),
+                    Ok((len, content)) => {
+                        lx.check(*len == n && sorted(content) == sorted(&vals), "C03/handle-changed", || format!("{:?} on {:?} step {}: the view the routine was called on now has {} elements {:?}", c.r, vals, c.step, len, content));
+                    }
                 }
                 let after = h.memory();
                 if let Err(i) = guards_intact(&before, &after, &h.view_offsets(), |x, y| x == y) {
